@@ -4,10 +4,44 @@
 #include "domain.hh"
 #include <vata/incl_param.hh>
 #include <vata/sim_param.hh>
+#include "explicit_tree_aut_core.hh"
+#include "loadable_aut.hh"
+#include "explicit_tree_incl_up.hh"
+
+namespace VATA { extern void (*verifUpwardInclusionObserver)(size_t, const std::vector<size_t>&); extern void (*verifUpwardInclusionStepObserver)(int, size_t, const std::vector<size_t>&); }   // guarded hook in src/explicit_tree_incl_up.cc
 
 using namespace verif; using namespace VATA;
 
 namespace c01 {
+
+// ---- stronger oracle for the upward antichain algorithm: when it answers 'included', its final antichain (exported through the guarded hook)
+// must be sound (every pair is a reachable pair of the reference subset construction) and complete (every reachable pair (q,S) is
+// subsumed by a stored pair (q,S') with S' a subset of S).  A lost or wrongly pruned macro-state shows here even when the verdict is still right.
+static std::vector<std::pair<size_t, std::vector<size_t>>>* g_collected = nullptr;
+static void collectPair(size_t q, const std::vector<size_t>& S) { if (g_collected) g_collected->push_back({q, S}); }
+// step-level invariant: within one step (one fixed pair, one rule) every computed post-image must be subsumed by an entry of the step's local antichain
+struct StepLog { std::vector<std::pair<size_t, std::vector<size_t>>> posts, kept; bool bad = false; std::string why; };
+static StepLog* g_step = nullptr;
+static void stepObserver(int kind, size_t q, const std::vector<size_t>& S) { if (!g_step) return; StepLog& L = *g_step;
+  if (kind == 1) L.posts.push_back({q, S}); else if (kind == 2) L.kept.push_back({q, S});
+  else { for (auto& p : L.posts) { bool sub = false; for (auto& k : L.kept) if (k.first == p.first && std::includes(p.second.begin(), p.second.end(), k.second.begin(), k.second.end())) { sub = true; break; }
+      if (!sub && !L.bad) { L.bad = true; L.why = "post-image (" + std::to_string(p.first) + ",{"; for (auto x : p.second) L.why += std::to_string(x) + " "; L.why += "}) computed in a step is not subsumed by any entry the step keeps:"; for (auto& k : L.kept) { L.why += " (" + std::to_string(k.first) + ",{"; for (auto x : k.second) L.why += std::to_string(x) + " "; L.why += "})"; } } }
+    L.posts.clear(); L.kept.clear(); } }
+static void antichainCheck(const ExplicitTreeAut& a, const ExplicitTreeAut& b, Ctx& c, const std::string& what, uint64_t w) {
+  try { ExplicitTreeAut a2(a), b2(b); AutBase::StateType st = AutBase::SanitizeAutsForInclusion(a2, b2); ref::TA A2 = dom::readBack(a2), B2 = dom::readBack(b2);
+    std::vector<std::pair<size_t, std::vector<size_t>>> got; g_collected = &got; VATA::verifUpwardInclusionObserver = &collectPair; StepLog steps; g_step = &steps; VATA::verifUpwardInclusionStepObserver = &stepObserver;
+    bool r = ExplicitUpwardInclusion::Check(static_cast<const ExplicitTreeAutCore&>(*a2.core_), static_cast<const ExplicitTreeAutCore&>(*b2.core_), Util::Identity(st));
+    VATA::verifUpwardInclusionObserver = nullptr; g_collected = nullptr; VATA::verifUpwardInclusionStepObserver = nullptr; g_step = nullptr; c.count("antichain_checks");
+    if (steps.bad) { c.viol("upward antichain (internal)", "post_image_dropped_without_being_subsumed", {}, what + "\nprepared A: " + A2.str() + " | prepared B: " + B2.str() + "\n" + steps.why, w); return; }
+    if (!r) return; c.count("antichain_checks_included");
+    auto R = ref::reachablePairs(A2, B2); std::set<std::pair<size_t, std::set<size_t>>> G; for (auto& p : got) G.insert({p.first, std::set<size_t>(p.second.begin(), p.second.end())});
+    auto show = [](const std::set<std::pair<size_t, std::set<size_t>>>& X) { std::string s; for (auto& p : X) { s += "(" + std::to_string(p.first) + ",{"; for (auto q : p.second) s += std::to_string(q) + " "; s += "}) "; } return s; };
+    for (auto& g : G) if (!R.count(g)) { c.viol("upward antichain (internal)", "stored_pair_is_not_reachable", {}, what + "\nprepared A: " + A2.str() + " | prepared B: " + B2.str() + "\nantichain: " + show(G) + "\nreachable pairs: " + show(R), w); return; }
+    for (auto& rp : R) { bool sub = false; for (auto& g : G) if (g.first == rp.first && std::includes(rp.second.begin(), rp.second.end(), g.second.begin(), g.second.end())) { sub = true; break; }
+      if (!sub) { c.viol("upward antichain (internal)", "reachable_pair_not_subsumed_by_the_antichain", {}, what + "\nprepared A: " + A2.str() + " | prepared B: " + B2.str() + "\nantichain: " + show(G) + "\nreachable pairs: " + show(R), w); return; } }
+    if (G.size() > R.size()) c.count("antichain_bigger_than_reachable");
+  } catch (std::exception& e) { VATA::verifUpwardInclusionObserver = nullptr; g_collected = nullptr; VATA::verifUpwardInclusionStepObserver = nullptr; g_step = nullptr; c.viol("upward antichain (internal)", "exception", {}, what + " " + e.what(), w); }
+}
 
 struct Variant { const char* name; bool down, rec, opt, sim; };
 static const Variant VARIANTS[8] = {
@@ -49,15 +83,24 @@ std::vector<std::string> pairFeatures(const ref::TA& A, const ref::TA& B) {
   return f;
 }
 
+// source of pairs: either all pairs of one domain with a bound on the total rule count, or the full product of two (trimmed) domains
+struct PairSrc { std::shared_ptr<dom::TADomain> D, DB; std::shared_ptr<dom::PairIndex> P; uint64_t total = 0;
+  std::pair<ref::TA, ref::TA> get(uint64_t idx) const { if (P) { auto ij = P->get(idx); return {D->get(ij.first), D->get(ij.second)}; } return {D->get(idx / DB->size()), DB->get(idx % DB->size())}; } };
+static void runSrc(Env& env, const std::string& stage, PairSrc S, int n, bool numberings);
 static void runDomain(Env& env, const std::string& stage, int n, const dom::Alphabet& sig, int perSide, int totalMax, bool numberings) {
-  auto D = std::make_shared<dom::TADomain>(n, sig, perSide);
-  auto P = std::make_shared<dom::PairIndex>(*D, totalMax);
-  env.noteNum(stage + ".automata", D->size()); env.noteNum(stage + ".rule_universe", D->U.size());
-  ParallelOpts o; o.stage = stage; o.size = P->total; o.block = 512; o.caseTimeout = 10;
-  o.describe = [D, P](uint64_t idx) { auto ij = P->get(idx); return "A: " + D->str(D->get(ij.first)) + " | B: " + D->str(D->get(ij.second)); };
-  o.run = [D, P, numberings, n](uint64_t idx, Ctx& c) {
-    auto ij = P->get(idx); size_t i = ij.first, j = ij.second;
-    ref::TA A = D->get(i), B = D->get(j);
+  PairSrc S; S.D = std::make_shared<dom::TADomain>(n, sig, perSide); S.P = std::make_shared<dom::PairIndex>(*S.D, totalMax); S.total = S.P->total;
+  env.noteNum(stage + ".automata", S.D->size()); env.noteNum(stage + ".rule_universe", S.D->U.size()); runSrc(env, stage, S, n, numberings); }
+// pairs of TRIMMED automata (no useless state, non-empty language): the no-simulation variants trim their operands first and the simulation recipe
+// does so explicitly, so every pair is language-equivalent to a trimmed pair; this reaches more states / rules / symbols than the full domains can
+static void runTrim(Env& env, const std::string& stage, int n, const dom::Alphabet& sig, int ka, int kb, bool numberings) {
+  PairSrc S; S.D = std::make_shared<dom::TADomain>(n, sig, ka, false, true); S.D->keepTrimmedOnly(); S.DB = std::make_shared<dom::TADomain>(n, sig, kb, false, true); S.DB->keepTrimmedOnly(); S.total = (uint64_t)S.D->size() * S.DB->size();
+  env.noteNum(stage + ".trimmed_automata_A", S.D->size()); env.noteNum(stage + ".trimmed_automata_B", S.DB->size()); runSrc(env, stage, S, n, numberings); }
+static void runSrc(Env& env, const std::string& stage, PairSrc S, int n, bool numberings) {
+  auto D = S.D;
+  ParallelOpts o; o.stage = stage; o.size = S.total; o.block = 512; o.caseTimeout = 10;
+  o.describe = [D, S](uint64_t idx) { auto ab = S.get(idx); return "A: " + D->str(ab.first) + " | B: " + D->str(ab.second); };
+  o.run = [D, S, numberings, n](uint64_t idx, Ctx& c) {
+    auto ab = S.get(idx); ref::TA A = ab.first, B = ab.second;
     bool expect = ref::included(A, B);
     bool eA = ref::emptyLang(A), eB = ref::emptyLang(B);
     c.evals();
@@ -68,12 +111,13 @@ static void runDomain(Env& env, const std::string& stage, int n, const dom::Alph
     if (dom::hasRulelessState(A)) c.count("class_A_state_without_rules");
     if (dom::hasUseless(A) || dom::hasUseless(B)) c.count("class_useless_states");
     if (dom::hasBinary(A) && dom::hasBinary(B)) c.count("class_binary_both");
-    if (c.wantSample() && !eA && !eB && A != B && D->numRules(i) >= 2) c.sample("A: " + D->str(A) + " | B: " + D->str(B) + " | included=" + (expect ? "1" : "0"));
+    if (c.wantSample() && !eA && !eB && A != B && A.rules.size() >= 2) c.sample("A: " + D->str(A) + " | B: " + D->str(B) + " | included=" + (expect ? "1" : "0"));
     int numb = numberings ? 2 : 1;
     for (int nv = 0; nv < numb; nv++) {
       ref::TA A2 = A, B2 = B;
       if (nv == 1) { A2 = ref::shift(A, 5); B2 = ref::mapStatesF(B, [n](size_t q) { return (size_t)(n - 1) - q; }); }
       ExplicitTreeAut a = dom::build(A2), b = dom::build(B2, nv == 1);
+      antichainCheck(a, b, c, "A: " + D->str(A2) + " | B: " + D->str(B2), A.rules.size() + B.rules.size());
       for (auto& v : VARIANTS) {
         if (nv == 1 && v.sim) continue;   // sim variants always see prepared operands; renumbering is covered by nv==0 + C19
         std::string what; int got = callIncl(a, b, v, &what);
@@ -84,7 +128,7 @@ static void runDomain(Env& env, const std::string& stage, int n, const dom::Alph
         c.viol(std::string("CheckInclusion/") + v.name, cls, feats,
                "A: " + D->str(A2) + " | B: " + D->str(B2) + " | variant=" + v.name + " expected=" + (expect ? "1" : "0") + " got=" + std::to_string(got) + (what.empty() ? "" : " what=" + what) +
                "\n--- A (timbuk)\n" + dom::timbuk(A2, D->sig, "A") + "--- B (timbuk)\n" + dom::timbuk(B2, D->sig, "B"),
-               D->numRules(i) + D->numRules(j));
+               A.rules.size() + B.rules.size());
       }
     }
   };
@@ -126,4 +170,13 @@ static Register r5("c01.n2s3k3", "C01", "pairs of TA(2,{a:0,b:0,f:1,g:2},<=3 rul
 static Register r6("c01.n3agk4", "C01", "pairs of TA(3,{a:0,g:2}), total <=4 rules, 8 variants",
                    [](Env& e) { runDomain(e, "c01.n3agk4", 3, dom::SigmaAG(), 4, 4, false); });
 
+static Register t1("c01.trim.n2s3.a3b3", "C01", "pairs of TRIMMED automata of TA(2,{a:0,b:0,f:1,g:2},<=3 rules), 8 variants, 2 numberings", [](Env& e) { runTrim(e, "c01.trim.n2s3.a3b3", 2, dom::Sigma3(), 3, 3, true); });
+static Register t2("c01.trim.n3s3.a3b3", "C01", "pairs of TRIMMED automata of TA(3,{a:0,b:0,f:1,g:2},<=3 rules), 8 variants, 2 numberings", [](Env& e) { runTrim(e, "c01.trim.n3s3.a3b3", 3, dom::Sigma3(), 3, 3, true); });
+static Register t3("c01.trim.n3s3.a3b4", "C01", "pairs of TRIMMED automata of TA(3,{a:0,b:0,f:1,g:2}): A <=3 x B <=4 rules, 8 variants", [](Env& e) { runTrim(e, "c01.trim.n3s3.a3b4", 3, dom::Sigma3(), 3, 4, false); });
+static Register t4("c01.trim.n3afh.a3b3", "C01", "pairs of TRIMMED automata of TA(3,{a:0,f:1,h:3},<=3 rules) (ternary symbol), 8 variants", [](Env& e) { runTrim(e, "c01.trim.n3afh.a3b3", 3, dom::SigmaAFH(), 3, 3, false); });
+static Register t5("c01.trim.n4s3p.a3b4", "C01", "pairs of TRIMMED automata of TA(4,{a:0,f:1,g:2}): A <=3 x B <=4 rules", [](Env& e) { runTrim(e, "c01.trim.n4s3p.a3b4", 4, dom::Sigma3p(), 3, 4, false); });
+static Register t6("c01.trim.n3s3.a4b4", "C01", "pairs of TRIMMED automata of TA(3,{a:0,b:0,f:1,g:2},<=4 rules), 8 variants", [](Env& e) { runTrim(e, "c01.trim.n3s3.a4b4", 3, dom::Sigma3(), 4, 4, false); });
+static Register t7("c01.trim.n2s2.a4b6", "C01", "pairs of TRIMMED automata of TA(2,{a:0,b:0,g:2}): A <=4 x B <=6 rules, 8 variants, 2 numberings", [](Env& e) { runTrim(e, "c01.trim.n2s2.a4b6", 2, dom::Sigma2(), 4, 6, true); });
+static Register t8("c01.trim.n2s2.a5b7", "C01", "pairs of TRIMMED automata of TA(2,{a:0,b:0,g:2}): A <=5 x B <=7 rules, 8 variants", [](Env& e) { runTrim(e, "c01.trim.n2s2.a5b7", 2, dom::Sigma2(), 5, 7, false); });
+static Register t9("c01.trim.n2s2.a3b5", "C01", "pairs of TRIMMED automata of TA(2,{a:0,b:0,g:2}): A <=3 x B <=5 rules, 8 variants, 2 numberings", [](Env& e) { runTrim(e, "c01.trim.n2s2.a3b5", 2, dom::Sigma2(), 3, 5, true); });
 }  // namespace c01
